@@ -29,7 +29,12 @@ def all_ctx(allow_unregistered: bool = False):
     ctx = Context(allow_unregistered=allow_unregistered)
     for name, factory in get_all_dialects().items():
         ctx.register_dialect(name, factory)
+    for d in _EXTRA_DIALECTS:
+        ctx.load_dialect(d)
     return ctx
+
+
+_EXTRA_DIALECTS: list[Any] = []
 
 
 _RUN = re.compile(r"^\s*//\s*RUN:\s*(.*)$")
@@ -285,6 +290,79 @@ def idiom_family() -> list[str]:
     return out
 
 
+def cf_passthrough_cfg(rng) -> str:
+    """A func with 4-6 blocks; some blocks contain only a branch; block arguments are forwarded, dropped, or read in blocks they
+    dominate.  The CFG is drawn first; a value is only used where its definition dominates the use (valid SSA)."""
+    nb = rng.randint(4, 6)
+    nargs = [0] + [rng.randint(0, 2) for _ in range(nb - 1)]
+    succ: dict[int, list[int]] = {}
+    kind: dict[int, str] = {}
+    for b in range(nb - 1):
+        targets = [t for t in range(1, nb) if t != b or rng.random() < 0.2]
+        if rng.random() < 0.5:
+            kind[b], succ[b] = "br", [rng.choice(targets)]
+        else:
+            kind[b], succ[b] = "cond", [rng.choice(targets), rng.choice(targets)]
+    succ[nb - 1] = []
+    # dominators (iterative); unreachable blocks keep "all blocks"
+    preds = {b: [p for p in range(nb) if b in succ[p]] for b in range(nb)}
+    dom = {b: set(range(nb)) for b in range(nb)}
+    dom[0] = {0}
+    changed = True
+    while changed:
+        changed = False
+        for b in range(1, nb):
+            ps = [dom[p] for p in preds[b]]
+            new = ({b} | set.intersection(*ps)) if ps else set(range(nb))
+            if new != dom[b]:
+                dom[b], changed = new, True
+    reach = {0}
+    frontier = [0]
+    while frontier:
+        x = frontier.pop()
+        for t in succ[x]:
+            if t not in reach:
+                reach.add(t)
+                frontier.append(t)
+    defs: dict[int, list[str]] = {b: [f"%b{b}a{j}" for j in range(nargs[b])] for b in range(nb)}
+    passthrough = {b: b > 0 and kind.get(b) == "br" and rng.random() < 0.6 for b in range(nb)}
+    body: dict[int, list[str]] = {b: [] for b in range(nb)}
+
+    def visible(b):
+        out = ["%x", "%y"]
+        for d in sorted(dom[b] if b in reach else {b}):
+            if d != b:
+                out += defs[d]
+        return out + defs[b]
+
+    order = sorted(range(nb), key=lambda b: len(dom[b]) if b in reach else 99)     # dominators first, so that their values exist
+    for b in order:
+        if not passthrough[b]:
+            for j in range(rng.randint(0, 2)):
+                vs = visible(b)
+                v = f"%v{b}_{j}"
+                body[b].append(f"    {v} = arith.{rng.choice(['addi', 'muli', 'xori'])} {rng.choice(vs)}, {rng.choice(vs)} : i32")
+                defs[b].append(v)
+
+    def branch_args(t, vs):
+        return "(" + ", ".join(rng.choice(vs) for _ in range(nargs[t])) + " : " + ", ".join(["i32"] * nargs[t]) + ")" if nargs[t] else ""
+
+    lines = []
+    for b in range(nb):
+        if b:
+            lines.append(f"  ^bb{b}" + ("(" + ", ".join(f"%b{b}a{j}: i32" for j in range(nargs[b])) + ")" if nargs[b] else "") + ":")
+        lines += body[b]
+        vs = visible(b)
+        if b == nb - 1:
+            lines.append(f"    func.return {rng.choice(vs)} : i32")
+        elif kind[b] == "br":
+            lines.append(f"    cf.br ^bb{succ[b][0]}{branch_args(succ[b][0], vs)}")
+        else:
+            lines.append(f"    %c{b} = arith.cmpi {rng.choice(['slt', 'eq', 'ne'])}, {rng.choice(vs)}, {rng.choice(vs)} : i32")
+            lines.append(f"    cf.cond_br %c{b}, ^bb{succ[b][0]}{branch_args(succ[b][0], vs)}, ^bb{succ[b][1]}{branch_args(succ[b][1], vs)}")
+    return "func.func @f(%x : i32, %y : i32) -> i32 {\n" + "\n".join(lines) + "\n}\n"
+
+
 def _limit_memory():
     import resource
 
@@ -301,7 +379,9 @@ def run_history(task):
     def bump(k):
         st[k] = st.get(k, 0) + 1
 
-    m = parse_input(chunk)
+    m = parse_input(chunk) if isinstance(chunk, str) else chunk       # in-process tasks may hand over a module object
+    if not isinstance(chunk, str):
+        out["chunk"] = ""
     if m is None:
         bump("input_rejected")
         return out
@@ -419,6 +499,12 @@ def run(ctx: Ctx):
     for k, text in enumerate(fam):
         for pname in generic if not q else frng.sample(generic, 3) + ["canonicalize", "cse"]:
             tasks.append((f"idiom#{k}", text, [(pname, None)], "idiom family"))
+    # 3c. cf CFGs with pass-through blocks (only a branch) whose arguments are forwarded, dropped or read in other blocks
+    crng = ctx.rng("cfgs")
+    for k in range(200 if q else 3000):
+        text = cf_passthrough_cfg(crng)
+        for pname in ("canonicalize", "dce", "cse"):
+            tasks.append((f"cfg#{k}", text, [(pname, None)], "cf pass-through family"))
     with mp.get_context("fork").Pool(16, maxtasksperchild=400, initializer=_limit_memory) as poolx:
         results = poolx.map(run_history, tasks, chunksize=8)
     # 4. schedule_space instances on a sample (in-process: instances are not picklable in general)
